@@ -131,3 +131,131 @@ pub fn introspection_bundle(schema: &Valid<Schema>) -> String {
         Err(e) => format!("INTROSPECTION REQUEST ERROR {}", e.message()),
     }
 }
+
+/// Multi-source build with a builder option
+pub fn multi_source_opt_bundle(parts: &[(String, String)], adopt_orphans: bool, ignore_builtin: bool) -> String {
+    let mut b = Schema::builder();
+    if adopt_orphans {
+        b = b.adopt_orphan_extensions();
+    }
+    if ignore_builtin {
+        b = b.ignore_builtin_redefinitions();
+    }
+    for (text, path) in parts {
+        b = b.parse(text.as_str(), path.as_str());
+    }
+    let mut s = String::new();
+    let orphans: Vec<String> = b.iter_orphan_extension_types().map(|n| n.to_string()).collect();
+    let _ = writeln!(s, "orphans {orphans:?}");
+    match b.build() {
+        Ok(schema) => match schema.validate() {
+            Ok(v) => {
+                let _ = write!(s, "MULTI OK\n{v}");
+            }
+            Err(e) => {
+                let _ = write!(s, "MULTI INVALID\n{}--partial--\n{}", diag_bundle(&e.errors), e.partial);
+            }
+        },
+        Err(e) => {
+            let _ = write!(s, "MULTI BUILD ERR\n{}--partial--\n{}", diag_bundle(&e.errors), e.partial);
+        }
+    }
+    s
+}
+
+/// Every observable of the pipeline for one input text, as named stages.
+pub fn full_bundle(text: &str) -> Vec<(&'static str, String)> {
+    let mut out: Vec<(&'static str, String)> = vec![];
+    out.push(("ast", ast_bundle(text, "input.graphql")));
+    out.push(("mixed", mixed_bundle(text, "input.graphql")));
+    out.push(("standalone", standalone_bundle(text, "input.graphql")));
+    let (schema_out, _) = schema_bundle(text, "input.graphql");
+    out.push(("schema", schema_out));
+    // split into type-system and executable definitions (re-serialised), and into two sources
+    let doc = match ast::Document::parse(text, "input.graphql") {
+        Ok(d) => d,
+        Err(e) => e.partial,
+    };
+    let mut type_system = String::new();
+    let mut executable = String::new();
+    let mut halves = [String::new(), String::new()];
+    let mut k = 0;
+    for def in &doc.definitions {
+        let is_exec = matches!(
+            def,
+            ast::Definition::OperationDefinition(_) | ast::Definition::FragmentDefinition(_)
+        );
+        let s = def.to_string();
+        if is_exec {
+            executable.push_str(&s);
+            executable.push('\n');
+        } else {
+            type_system.push_str(&s);
+            type_system.push('\n');
+            halves[k % 2].push_str(&s);
+            halves[k % 2].push('\n');
+            k += 1;
+        }
+    }
+    let parts = vec![
+        (halves[0].clone(), "a.graphql".to_string()),
+        (halves[1].clone(), "b.graphql".to_string()),
+    ];
+    out.push(("multi_source", multi_source_opt_bundle(&parts, false, false)));
+    out.push(("multi_source_adopt_orphans", multi_source_opt_bundle(&parts, true, false)));
+    out.push(("multi_source_ignore_builtin", multi_source_opt_bundle(&parts, false, true)));
+    let (ts_out, schema) = schema_bundle(&type_system, "schema.graphql");
+    out.push(("type_system_only", ts_out));
+    if let Some(schema) = &schema {
+        out.push(("introspection", introspection_bundle(schema)));
+        if !executable.trim().is_empty() {
+            out.push(("executable", exec_bundle(schema, &executable, "exec.graphql")));
+        }
+    }
+    out
+}
+
+/// apollo-smith: bytes → document text, and operation generation against a parsed document
+pub fn smith_bundle(bytes: &[u8]) -> Vec<(&'static str, String)> {
+    let mut out = vec![];
+    let mut u = arbitrary::Unstructured::new(bytes);
+    let text = match apollo_smith::DocumentBuilder::new(&mut u).build() {
+        Ok(doc) => String::from(doc),
+        Err(e) => format!("# smith error {e}"),
+    };
+    out.push(("smith_document", text.clone()));
+    // operation generation against the (re-parsed) document
+    let cst = apollo_parser::Parser::new(&text).parse();
+    if cst.errors().len() == 0 {
+        if let Ok(doc) = apollo_smith::Document::try_from(cst.document()) {
+            let mut bytes2: Vec<u8> = bytes.iter().rev().copied().collect();
+            bytes2.extend_from_slice(bytes);
+            let mut u2 = arbitrary::Unstructured::new(&bytes2);
+            let r = apollo_smith::DocumentBuilder::with_document(&mut u2, doc).and_then(|mut b| {
+                let mut s = String::new();
+                for _ in 0..3 {
+                    match b.operation_definition() {
+                        Ok(Some(op)) => {
+                            s.push_str(&String::from(op));
+                            s.push('\n');
+                        }
+                        Ok(None) => s.push_str("# none\n"),
+                        Err(e) => {
+                            s.push_str(&format!("# err {e}\n"));
+                            break;
+                        }
+                    }
+                }
+                Ok(s)
+            });
+            out.push((
+                "smith_with_document",
+                match r {
+                    Ok(s) => s,
+                    Err(e) => format!("# smith error {e}"),
+                },
+            ));
+        }
+    }
+    out
+}
